@@ -253,6 +253,13 @@ Definition client_accepts (hash : bytes -> bytes) (verify : bytes -> bytes -> by
            (ec_ok : bytes -> bool) (p : Z) (v : view) (sig : bytes) : bool :=
   client_range_ok ec_ok p (kf v) && verify (k_s v) (hash (hash_input v)) sig.
 
+(* asyncssh.get_server_host_key() (a connection created with wait='kex'): the waiter is resolved in
+   send_newkeys, which the key exchange handler calls only after _verify_reply accepted; the caller then gets
+   the presented host key.  None = the caller gets the exception instead. *)
+Definition kex_wait_result (hash : bytes -> bytes) (verify : bytes -> bytes -> bytes -> bool)
+           (ec_ok : bytes -> bool) (p : Z) (v : view) (sig : bytes) : option bytes :=
+  if client_accepts hash verify ec_ok p v sig then Some (k_s v) else None.
+
 (* the group the server picks for a group exchange request (kex_dh.py _process_request), on the table of
    sizes only: returns the bit size of the chosen group *)
 Fixpoint gex_pick (sizes : list Z) (cur pref maxsz : Z) : Z :=
